@@ -293,9 +293,42 @@ pub fn run(ctx: &Ctx, rep: &Report) {
                 }
             }
         });
-        let p = pairs.load(std::sync::atomic::Ordering::Relaxed);
+        // every ordered pair of base frames (same payload on another carrier, another address, another register ...)
+        let mut all: Vec<Vec<u8>> = bases.clone();
+        for b in &bases {
+            // the same frame from another address (AP formats: re-overlaid; squitters: AA changed and re-sealed)
+            let mut o = b.clone();
+            let df = o[0] >> 3;
+            if df == 17 || df == 18 || df == 11 {
+                o[1] ^= 0x80;
+                o[3] ^= 0x01;
+                let l = o.len();
+                o[l - 3] = 0;
+                o[l - 2] = 0;
+                o[l - 1] = 0;
+                seal(&mut o, 0);
+            } else {
+                let l = o.len();
+                o[l - 1] ^= 0x01;
+                o[l - 3] ^= 0x80;
+            }
+            all.push(o);
+        }
+        let refs: Vec<String> = all.iter().map(&fresh).collect();
+        let np = std::sync::atomic::AtomicU64::new(0);
+        par_items(ctx.threads, all.len(), |i| {
+            for j in 0..all.len() {
+                let _ = render(&all[i]);
+                let got = render(&all[j]);
+                np.fetch_add(1, std::sync::atomic::Ordering::Relaxed);
+                if got != refs[j] {
+                    rep.violation("order-dependent", format!("decoding {} right after {} gives a different result than decoding it first", hexs(&all[j]), hexs(&all[i])), json!({"frame": hexs(&all[j]), "after": hexs(&all[i]), "group": "sequence"}));
+                }
+            }
+        });
+        let p = pairs.load(std::sync::atomic::Ordering::Relaxed) + np.load(std::sync::atomic::Ordering::Relaxed);
         n += 3 * p;
-        rep.part("two-decode sequences over single-bit neighbours", p, json!({"base_frames": bases.len()}));
+        rep.part("two-decode sequences over single-bit neighbours and all pairs of base frames", p, json!({"base_frames": all.len()}));
     }
     let c = fspace::sweep(ctx, rep, &v, true);
     let frames = c.frames.load(std::sync::atomic::Ordering::Relaxed);
